@@ -512,15 +512,26 @@ func combineHeaders(srcs []*Profile) (*Profile, error) {
 
 		TimeNanos:     timeNanos,
 		DurationNanos: durationNanos,
-		PeriodType:    srcs[0].PeriodType,
+		PeriodType:    copyValueType(srcs[0].PeriodType),
 		Period:        period,
 
 		Comments:          comments,
 		DefaultSampleType: defaultSampleType,
 		DocURL:            docURL,
 	}
-	copy(p.SampleType, srcs[0].SampleType)
+	for i, st := range srcs[0].SampleType {
+		p.SampleType[i] = copyValueType(st)
+	}
 	return p, nil
+}
+
+// copyValueType returns a copy of vt, so that the merged profile does not
+// share its value types with the first source profile.
+func copyValueType(vt *ValueType) *ValueType {
+	if vt == nil {
+		return nil
+	}
+	return &ValueType{Type: vt.Type, Unit: vt.Unit}
 }
 
 // compatible determines if two profiles can be compared/merged.
